@@ -320,7 +320,29 @@ func TestC12L2(t *testing.T) {
 			p.Admin, p.BridgeExecutors = newAdmin, newExecs
 			return &p
 		}
+		var pastPlans []func() error
 		repeatSteps(rt, 30, func(i int) {
+			if len(pastPlans) > 0 && rapid.IntRange(0, 9).Draw(rt, "nodeRestart") == 0 {
+				// the node restarts: the in-memory plan registry starts empty and the application registers the plans
+				// of its configuration again, among them plans whose height has long passed. They never run again.
+				for h := range l2.K.ExecutorChangePlans {
+					delete(l2.K.ExecutorChangePlans, h)
+				}
+				for _, reg := range pastPlans {
+					if err := reg(); err != nil {
+						rt.Fatalf("harness: registering a configured plan again after a restart: %v", err)
+					}
+				}
+				if _, err := l2.EndBlock(); err != nil {
+					rt.Fatalf("C12 violated at step %d: EndBlock after a restart that registered past plans again: %v\nhistory:\n%s", i, err, strings.Join(log, "\n"))
+				}
+				l2.NextBlock(time.Second)
+				log = append(log, "node restart: past plans registered again; one more block")
+				c.Class("L2/past-plans-registered-again-after-restart")
+				if p, _ := l2.K.GetParams(l2.Ctx); fmt.Sprint(p.BridgeExecutors) != fmt.Sprint(executors) && !(len(p.BridgeExecutors) == 0 && len(executors) == 0) {
+					rt.Fatalf("C12 violated at step %d: after a restart that registered past plans again the bridge executors are %v; the last authorized change made them %v\nhistory:\n%s", i, p.BridgeExecutors, executors, strings.Join(log, "\n"))
+				}
+			}
 			cands := []string{authority, admin}
 			cands = append(cands, executors...)
 			cands = append(cands, formerExec...)
@@ -354,6 +376,9 @@ func TestC12L2(t *testing.T) {
 				if err := l2.K.RegisterExecutorChangePlan(uint64(i+1), h, sdk.ValAddress(users[5].Addr).String(), "m", string(bz), "", newExecs); err != nil {
 					return
 				}
+				pastPlans = append(pastPlans, func() error {
+					return l2.K.RegisterExecutorChangePlan(uint64(i+1), h, sdk.ValAddress(users[5].Addr).String(), "m", string(bz), "", newExecs)
+				})
 				if _, err := l2.EndBlock(); err != nil {
 					fail("EndBlock with plan: %v", err)
 				}
@@ -495,7 +520,15 @@ func TestC12L2(t *testing.T) {
 				rotated := false
 				var desc []string
 				for k := 0; k < n; k++ {
-					switch rapid.SampledFrom([]string{"params", "params-rotate", "spend", "spend-too-much", "send-by-admin", "send-by-other", "remove-unknown", "send-by-authority", "send-by-authority", "withdraw-by-user", "deposit-by-executor", "oracle-by-authority", "deposit-by-authority", "nested-batch-by-stranger", "nested-batch-by-authority"}).Draw(rt, "inner") {
+					switch rapid.SampledFrom([]string{"params", "params-rotate", "spend", "spend-too-much", "send-by-admin", "send-by-other", "remove-unknown", "send-by-authority", "send-by-authority", "withdraw-by-user", "deposit-by-executor", "oracle-by-authority", "deposit-by-authority", "nested-batch-by-stranger", "nested-batch-by-authority", "unroutable-by-authority"}).Draw(rt, "inner") {
+					case "unroutable-by-authority":
+						// a message type the codec knows and the authority signs, for which this chain has no handler
+						inner = append(inner, &authtypes.MsgUpdateParams{Authority: authority, Params: authtypes.DefaultParams()})
+						allValid = false
+						if failPos < 0 {
+							failPos = k
+						}
+						desc = append(desc, "unroutable-by-authority")
 					case "oracle-by-authority":
 						// signed by the module authority, as the batch demands - but the authority is not a bridge executor
 						inner = append(inner, opchildtypes.NewMsgUpdateOracle(authority, 5, []byte{1}))
